@@ -36,8 +36,13 @@ def showVals (m : PMap) : String :=
     | some v => (C04.showVal v).replace " " ":"
     | none => "err")
 
-def showLog (l : List (Nat × Nat)) : String :=
-  if l.isEmpty then "-" else String.intercalate "," (l.map fun (k, cb) => s!"{k}.{cb}")
+/-- what a callback recorded: timestamp, is_received, period, data, the mapped variables' values -/
+def showSnap (m : PMap) : String :=
+  let vals := (showVals m).replace "," ";"
+  s!"{showOptInt m.timestamp}~{if m.isReceived then "1" else "0"}~{showOptInt m.period}~{toHex m.data}~{vals}"
+
+def showLog (l : List Call) : String :=
+  if l.isEmpty then "-" else String.intercalate "," (l.map fun (k, cb, snap) => s!"{k}.{cb}~{showSnap snap}")
 
 structure Sys where
   prod : List PMap
@@ -87,6 +92,18 @@ def onMap (s : Sys) (side : String) (k : Nat) (f : PMap → PMap × String) : Sy
     | some cm => let (cm', o) := f cm; ({ s with cons := { s.cons with maps := s.cons.maps.set k cm' } }, o)
     | none => (s, "bad")
   else (s, "bad")
+
+/-- `add_callback` of an observer (`raises`: it raises after recording) -/
+def addCallback (s : Sys) (m tag : String) (raises : Bool) : Sys × String :=
+  match m.toNat?, tag.toNat? with
+  | some m, some tag =>
+    (match s.cons.maps[m]? with
+     | some cm => ({ s with cons := { s.cons with maps := s.cons.maps.set m { cm with callbacks := cm.callbacks ++ [(tag, raises)] } } }, "ok")
+     | none => (s, "bad"))
+  | _, _ => (s, "bad")
+
+def stamp (s : Sys) (arr : List (Nat × Bytes)) : List (Nat × Bytes × Int) :=
+  (List.range arr.length).zip arr |>.map fun (n, (i, d)) => (i, d, s.clock + n)
 
 def stepOne (s : Sys) (tok : String) : Sys × String :=
   match tok.splitOn "." with
@@ -153,13 +170,8 @@ def stepOne (s : Sys) (tok : String) : Sys × String :=
     (match m.toNat?, cob.toNat?, parseBool en, parseBool rtr with
      | some m, some cob, some en, some rtr => ({ s with cons := readFromOd s.cons m cob en rtr }, "ok")
      | _, _, _, _ => (s, "bad"))
-  | ["b", m, tag] =>
-    (match m.toNat?, tag.toNat? with
-     | some m, some tag =>
-       (match s.cons.maps[m]? with
-        | some cm => ({ s with cons := { s.cons with maps := s.cons.maps.set m { cm with callbacks := cm.callbacks ++ [tag] } } }, "ok")
-        | none => (s, "bad"))
-     | _, _ => (s, "bad"))
+  | ["b", m, tag] => addCallback s m tag false
+  | ["B", m, tag] => addCallback s m tag true
   | ["T", m, on] =>
     -- the older spelling of `S.C.m.7` / `E.C.m`
     (match m.toNat?, parseBool on with
@@ -180,10 +192,17 @@ def stepOne (s : Sys) (tok : String) : Sys × String :=
   | ["W", m, arr] =>
     (match m.toNat?, parseArrivals arr with
      | some m, some arr =>
-       let stamped := (List.range arr.length).zip arr |>.map fun (n, (i, d)) => (i, d, s.clock + n)
-       let (c, res) := waitForReception s.cons m stamped
+       let (c, res) := waitForReception s.cons m (stamp s arr)
        ({ s with cons := c, clock := s.clock + arr.length }, s!"wait:{showOptInt res}")
      | _, _ => (s, "bad"))
+  | ["Z", m, n, _timeout, arr] =>
+    -- `n` reader threads in wait_for_reception, the frames delivered from another thread
+    (match m.toNat?, n.toNat?, parseArrivals arr with
+     | some m, some n, some arr =>
+       let (c, res) := waitThreaded s.cons m (stamp s arr)
+       ({ s with cons := c, clock := s.clock + arr.length },
+        "wait:" ++ String.intercalate "," (List.replicate n (showOptInt res)))
+     | _, _, _ => (s, "bad"))
   | _ => (s, "bad")
 
 /-- `x <producer maps> <consumer maps> <step|step|…>` -/
